@@ -294,9 +294,45 @@ func H_life_r() {
 	ended := false
 	started := false
 	endPos := 0
+	// broken: a WriteTo whose destination failed has left the Reader failed; until the next Reset
+	// calls only have to return
+	broken := false
+	nops := 6
+	if hLifeNum > 1 {
+		nops = 7 // the concurrent Reader also gets "WriteTo into a failing destination"
+	}
 	for step := 0; step < L; step++ {
-		op := vfChoice("op", 6)
+		op := vfChoice("op", nops)
+		if broken && op != 4 {
+			// any call on a failed Reader: must return, nothing else is promised
+			switch op {
+			case 2, 6:
+				var w hSink
+				w.failAt = -1
+				zr.WriteTo(&w)
+			case 3:
+				zr.Size()
+			default:
+				zr.Read(make([]byte, 3))
+			}
+			continue
+		}
 		switch op {
+		case 6: // WriteTo into a destination that fails at its first call
+			var w hSink
+			w.failAt = 0
+			_, err := zr.WriteTo(&w)
+			if ended {
+				vfAssert("r-eof-consumes-nothing", src.pos == endPos)
+			} else if err != nil {
+				broken = true
+			} else {
+				// nothing was left to write: that was the end of the stream
+				vfAssert("r-writeto-nothing-left", delivered == len(in))
+				ended = true
+				started = true
+				endPos = src.pos
+			}
 		case 0, 1, 5: // Read small / big / empty buffer
 			size := 3
 			if op == 1 {
@@ -361,6 +397,7 @@ func H_life_r() {
 			zr.Reset(src)
 			vfAssert("r-reset-no-access", src.pos == 0)
 			delivered, ended, started, endPos = 0, false, false, 0
+			broken = false
 		}
 	}
 	vfReach("end")
